@@ -57,3 +57,4 @@ def run(ctx, R):
     x86loop.rule_loopstore(ctx, R)
     x86loop.rule_loopload(ctx, R)
     x86loop.rule_dsitem(ctx, R)
+    vmcfg.rule_initorder(ctx, R, astq.Facts(ctx, 'K0'))
